@@ -1201,10 +1201,10 @@ func (x *Exec) callEffects(n *ast.CallExpr, info *types.Info) (allocs, ghosts bo
 	if pureLib[full] {
 		return false, false, nil
 	}
-	if full == "(io.Writer).Write" || full == "(*bufio.Scanner).Scan" {
+	if full == "(io.Writer).Write" || full == "(*bufio.Scanner).Scan" || full == "(*encoding/csv.Reader).Read" {
 		return false, true, nil
 	}
-	if full == "strings.Fields" {
+	if full == "strings.Fields" || full == "strings.Split" {
 		return true, false, []string{sortStr}
 	}
 	if full == "(*bufio.Scanner).Text" {
@@ -1306,10 +1306,10 @@ func (x *Exec) ghostHandlesIn(body ast.Node, st *State, env *Env) (all bool, han
 			if pureLib[full] || full == "sort.Slice" || full == "sort.SliceStable" {
 				return true
 			}
-			if full == "strings.Fields" {
+			if full == "strings.Fields" || full == "strings.Split" {
 				return true
 			}
-			if full == "(io.Writer).Write" || full == "(*bufio.Scanner).Scan" {
+			if full == "(io.Writer).Write" || full == "(*bufio.Scanner).Scan" || full == "(*encoding/csv.Reader).Read" {
 				if sel, ok := n.Fun.(*ast.SelectorExpr); ok {
 					if t, ok := termOf(sel.X); ok {
 						handles[t] = true
